@@ -263,4 +263,17 @@ def existSplitX (eqs : List (List Dag Ã— Dag)) (vars : List Nat) : Nat â†’ Box â
 def certifiedSplitX (eqs : List (List Dag Ã— Dag)) (e u : Box) (vars : List Nat) (depth : Nat) : Bool :=
   pointConsts eqs && existSplitX eqs vars depth e && Box.subset e u && Newton.uniqueCertVarsX eqs u vars
 
+
+/-! ### inner boxes proved with exact interval arithmetic -/
+
+/-- the constraint is proved on the box by EXACT interval evaluation (no rounding: the bound is sharp when every
+    variable occurs once; never looser than any outward-rounded evaluation of the same expression) -/
+def provedOnBoxX (funs : List Dag) (dag : Dag) (spec : String) (box : Box) : Bool :=
+  match Eval.root Alg.itvX box (Eval.buildCalls Alg.itvX funs) dag with
+  | some v => v.d.all (Cover.signProved spec)
+  | none => false
+
+def innerOkX (cs : List ((List Dag Ã— Dag) Ã— String)) (box : Box) : Bool :=
+  cs.all fun x => provedOnBoxX x.1.1 x.1.2 x.2 box
+
 end Ibex.Verdict
